@@ -267,6 +267,15 @@ class Protocol:
             if not self.neighbor.adj_rib_in and not (for_api or self.log_routes) and not (parsed or consolidate):
                 return _UPDATE
 
+        if (
+            msg_id == Message.CODE.ROUTE_REFRESH
+            and len(body) == RouteRefresh.LENGTH
+            and body[2] not in RouteRefresh.SUBTYPES
+        ):
+            # RFC 7313 5: a ROUTE-REFRESH with an unknown message subtype MUST be ignored (the decoder
+            # refuses it with a subcode, 7/2, which does not exist)
+            return _NOP
+
         try:
             message = Message.unpack(msg_id, body, self.negotiated)
         except (KeyboardInterrupt, SystemExit, Notify):
